@@ -91,4 +91,79 @@ for v in list(range(-300, 301)) + [rng.randint(-10**12, 10**12) for _ in range(3
 # --- a column list with a repeated label keeps BOTH copies in pandas (the model refuses it: its columns are keyed by label)
 dfr = pd.DataFrame({"x": [1.0, 2.0], "y": [3.0, 4.0]})
 ok(dfr[["x", "y", "y"]].shape == (2, 3), "df[[x, y, y]] has three columns")
+# --- fourth session: the counting models of pyvc/ext_C18.py (np.unique with flags, occ, setdiff1d, isin, bincount, add.at, max(initial=),
+#     a[mask] written out by ranks, the filter-count fact).  Every `ok` is one fact the model assumes, evaluated on the real numpy.
+def occ(a, v, i):
+    return sum(1 for j in range(i) if a[j] == v)
+
+
+for _ in range(400):
+    n = rng.randint(0, 8)
+    a = np.array([rng.randint(-2, 4) for _ in range(n)], dtype=rng.choice([np.int64, np.int32]))
+    u, idx, inv, cnt = np.unique(a, return_index=True, return_inverse=True, return_counts=True)
+    m = len(u)
+    ok(0 <= m <= n and (m == 0) == (n == 0), "unique: 0 <= m <= n, empty iff empty")
+    ok(len(idx) == m and len(cnt) == m and len(inv) == n, "unique: lengths of index / counts / inverse")
+    ok(all(u[k] < u[k + 1] for k in range(m - 1)), "unique: adjacent entries increase")
+    ok(all(0 <= idx[k] < n and a[idx[k]] == u[k] and all(a[j] != u[k] for j in range(idx[k])) for k in range(m)), "unique: index = FIRST position of the value")
+    ok(all(0 <= inv[i] < m and u[inv[i]] == a[i] for i in range(n)), "unique: inverse = position of a[i] in out")
+    ok(all(cnt[k] == occ(a, u[k], n) and cnt[k] >= 1 for k in range(m)), "unique: counts[k] = number of positions holding out[k], >= 1")
+    ok(np.array_equal(np.unique(a, return_counts=True)[1], cnt) and np.array_equal(np.unique(a, return_inverse=True)[1], inv), "unique: flags are independent")
+    # occ facts
+    for v in range(-3, 6):
+        ok(occ(a, v, 0) == 0 and all(occ(a, v, i + 1) == occ(a, v, i) + (1 if a[i] == v else 0) for i in range(n)), "occ: recursion")
+        ok(all(0 <= occ(a, v, i) <= i for i in range(n + 1)), "occ: bounds")
+        ok(all((occ(a, v, i) > 0) == any(a[j] == v for j in range(i)) for i in range(n + 1)), "occ: positive iff some position holds v")
+    # a[mask] by ranks (the written-out form of the filter facts)
+    mk = np.array([rng.random() < 0.5 for _ in range(n)], dtype=bool)
+    f = a[mk]
+    ok(len(f) == int(mk.sum()), "a[mask]: length = number of set positions")
+    ok(all(f[int(mk[:q].sum())] == a[q] for q in range(n) if mk[q]), "a[mask]: the element of position q lands at rank(q) = number of set positions before q")
+    # filter-count: a value all of whose occurrences are selected keeps its count (else some occurrence is not selected)
+    for v in range(-3, 6):
+        ok(occ(f, v, len(f)) == occ(a, v, n) or any(a[w] == v and not mk[w] for w in range(n)), "filter-count")
+        ok(occ(f, v, len(f)) == sum(1 for q in range(n) if mk[q] and a[q] == v), "filter-count: count in the selection = positions that are set and hold v")
+    # setdiff1d / isin
+    b = np.array([rng.randint(-2, 4) for _ in range(rng.randint(0, 5))], dtype=np.int64)
+    d = np.setdiff1d(a, b)
+    ok(len(d) <= n and all(d[k] < d[k + 1] for k in range(len(d) - 1)), "setdiff1d: strictly increasing, no longer than a")
+    ok(all(any(d[k] == a[i] for i in range(n)) and all(d[k] != b[j] for j in range(len(b))) for k in range(len(d))), "setdiff1d: entries are values of a that are not in b")
+    ok(all(any(a[i] == b[j] for j in range(len(b))) or any(d[k] == a[i] for k in range(len(d))) for i in range(n)), "setdiff1d: every value of a is in b or listed")
+    ii = np.isin(a, b)
+    ok(len(ii) == n and all(bool(ii[i]) == any(a[i] == b[j] for j in range(len(b))) for i in range(n)), "isin: elementwise membership")
+    ok(np.array_equal(np.isin(a, b, invert=True), ~ii), "isin(invert=True) negates")
+    # bincount / add.at on non-negative data
+    x = np.array([rng.randint(0, 5) for _ in range(n)], dtype=np.int64)
+    ml = rng.randint(0, 7)
+    bc = np.bincount(x, minlength=ml)
+    L = len(bc)
+    ok(L >= ml and all(x[q] < L for q in range(n)) and (L == ml or any(x[q] + 1 == L for q in range(n))), "bincount: length = max(minlength, max(x) + 1)")
+    ok(all(bc[v] == occ(x, v, n) for v in range(L)), "bincount: entry v = number of positions holding v")
+    if n and (a < 0).any():
+        try:
+            np.bincount(a)
+            ok(False, "bincount of negative entries must raise")
+        except ValueError:
+            ok(True, "")
+    acc = np.array([rng.randint(0, 3) for _ in range(6)], dtype=np.int64)
+    acc0 = acc.copy()
+    c = rng.randint(1, 3)
+    np.add.at(acc, x, c)
+    ok(all(acc[v] == acc0[v] + c * occ(x, v, n) for v in range(6)), "np.add.at: a[v] grows by c times the number of positions of idx holding v")
+    try:
+        np.add.at(acc0.copy(), np.array([6]), 1)
+        ok(False, "np.add.at out of bounds must raise")
+    except IndexError:
+        ok(True, "")
+    # max with initial
+    r = np.max(a, initial=0)
+    ok(r >= 0 and all(r >= a[q] for q in range(n)) and (r == 0 or any(r == a[q] for q in range(n))), "np.max(a, initial=0)")
+    ok(a.max(initial=-7) == (max(list(a) + [-7])), "ndarray.max(initial=)")
+    if n == 0:
+        try:
+            a.max()
+            ok(False, "max of an empty array without initial must raise")
+        except ValueError:
+            ok(True, "")
+    ok(bool((a > 2).any()) == any(a[q] > 2 for q in range(n)) and bool((a > 2).all()) == all(a[q] > 2 for q in range(n)), "any / all")
 print("xcheck_C18: all", N, "model facts hold on the real library")
